@@ -110,6 +110,22 @@ pub fn faststr_deep(cx: &mut Ctx, a: &[u8]) {
                 if fa.ends_with(fb.substring_from(k)) || !fa.ends_with(fb.substring_from(k + 1)) { bad.push(format!("ends_with around position {}", k)); }
             }
         }
+        // --- two bytes changed in opposite directions: the first difference decides, not the later one and not a whole word
+        for k in 0..n {
+            for j in [1usize, 3, 7, 8] {
+                if k + j >= n { continue; }
+                for up in [true, false] {
+                    let mut b = a.to_vec();
+                    if up { b[k] = b[k].wrapping_add(1); b[k + j] = b[k + j].wrapping_sub(1); } else { b[k] = b[k].wrapping_sub(1); b[k + j] = b[k + j].wrapping_add(1); }
+                    let fb = FastStr::new(&b);
+                    let want = a.cmp(&b[..]);
+                    if fa.cmp(&fb) != want || fa.compare(fb) != want || fb.partial_cmp(&fa) != Some(want.reverse()) || fa == fb {
+                        bad.push(format!("ordering wrong: bytes {} and {} changed in opposite directions (got {:?}, unsigned byte order says {:?})", k, k + j, fa.cmp(&fb), want));
+                    }
+                    if fa.common_prefix_len(fb) != k { bad.push(format!("common_prefix_len with differences at {} and {}", k, k + j)); }
+                }
+            }
+        }
         // --- every prefix / suffix / cut point
         for k in 0..=n {
             let p = &a[..k];
